@@ -7,5 +7,6 @@ mkdir -p build evidence replays
 cp /repo/Cargo.lock kani/Cargo.lock 2>/dev/null
 (cd kani && CARGO_TARGET_DIR=../build/kani-target cargo kani -Z stubbing --only-codegen >/dev/null 2>build-kani.log || true)
 (cd kani && CARGO_TARGET_DIR=../build/replay-target cargo build --offline --bin replay --quiet 2>/dev/null || true)
+(cd kani && CARGO_TARGET_DIR=../build/replay-target cargo build --offline --bin metaprobe --quiet 2>/dev/null || true)
 verus --version >/dev/null 2>&1 || echo "verus missing"
 exit 0
